@@ -40,6 +40,30 @@ CLAIMED = {
    "differential in both directions against an independent reader/writer of the JavaScript on-disk layout (generated histories dumped at every operation boundary; generated JS-valid storages opened by the crate) + the golden five-step interop scenario with certified SHA-256 hashes",
    "Direction 1: an independent layout reader reconstructs the state from the raw files after every generated operation and must agree with the API. Golden: the crate alone must reproduce the file hashes certified against JavaScript. Direction 2: an independent writer synthesises JS-valid storage (slot rotations, partial/stale/torn tails) that the crate must open to the reference state.",
    "the JavaScript implementation is not available offline; the layout rules of the property text and the certified hashes of tests/js_interop.rs are the reference; header shape limited to version 1 with manifest and key pair sections"),
+ "C08": ("exploration",
+   "model-based PBT at page-crossing scale: writer histories with 8191..65537-block batches, page-straddling clears, reopen and generated crash-recovery steps; replicas fetching blocks pages apart with replica-side clears; has() swept over all indices + boundary probes, contiguous_length against the model",
+   "After every step of scaled histories has(i) is compared with the model for all i < length and probed beyond it, and contiguous_length with the first missing index, on writers (incl. crash recovery from generated journal prefixes) and replicas.",
+   "replica-side clears only where the neighbours are held or log ends (otherwise the replica may legitimately lack the tree nodes it needs)"),
+ "C11": ("exploration",
+   "round-trip + differential against an independent compact-encoding encoder + every strict prefix must fail to decode; boundary cross-product enumerated, seeded-random composite values (proptest)",
+   "For generated values of all eight message types the announced size, the bytes written, an independent encoding of the fields and the decoded value must agree, and every strict prefix must decode to an error without panicking.",
+   "valid encodings and their prefixes only (arbitrary bytes may legitimately make the dependency allocate)"),
+ "C12": ("exploration",
+   "model-based PBT + raw-byte scan of all four files for the secret key + byte-for-byte file comparison around refused calls + crash-point enumeration inside make_read_only",
+   "Histories with make_read_only at generated positions (bounded-exhaustive over 9 symbols, then random) on writers and replicas; files are scanned for the key after the call and after every later operation; every crash point of histories containing the call is enumerated.",
+   "fixed test key pair; the scan looks for the 32-byte secret and both of its 16-byte halves"),
+ "C13": ("exploration",
+   "event-trace oracle over generated writer and replica histories with 0..4 subscribers, drained after every call",
+   "For every call of generated histories the exact list of events every subscriber must have seen is computed from the model and compared, including refused/altered proofs and failing calls.",
+   "calls the statement does not mention (missing_nodes, clear) are only required not to announce availability"),
+ "C14": ("exploration",
+   "differential across storage backends (instrumented memory, journaled, stock random-access-memory with several page sizes, stock disk in a scratch directory) x node cache configurations (off, default, 3 nodes): all step results, complete proofs and file bytes compared",
+   "The same generated history (writer ops and replication steps, one key pair) runs on every configuration; any difference in a result or in a file byte is a violation.",
+   "physical allocation is not compared (punched holes read back as zeros); thorough additionally runs a build without the sparse feature"),
+ "C15": ("exploration",
+   "deterministic single-threaded scheduler over a yielding backend: ALL schedules (stateless DFS) for 2 tasks x <=2 calls, seeded-random programs/schedules beyond; tagged-journal atomicity + sequential-replay linearizability oracle with search over real-time-consistent orders",
+   "SharedCore is driven by a scheduler that owns every preemption point (each storage operation and each call boundary); every execution must be equal to some sequential order of its calls and no call's storage operations may interleave with another's.",
+   "task interleavings only (no OS-thread races); async_lock's wall-clock fairness can change the winner of the lock, not the oracle's verdict"),
 }
 
 PENDING_REASON = "check under construction in this round (designed in DESIGN.md §3, not yet registered)"
